@@ -17,7 +17,7 @@ from tvf.env import Check, fmt_exc
 def gen_data(rng, nmax=1000):
     d = int(rng.integers(1, 7))
     n = int(rng.integers(2 * d, min(nmax, 120) + 1)) if rng.random() < 0.7 else int(rng.integers(120, nmax + 1))
-    kind = str(rng.choice(["separated", "overlapping", "single", "duplicated", "near-degenerate", "unit-cube", "offset", "far-apart"]))
+    kind = str(rng.choice(["separated", "overlapping", "single", "duplicated", "near-degenerate", "unit-cube", "offset", "far-apart", "satellite"]))
     k = int(rng.integers(1, 4))
     if kind == "single":
         k = 1
@@ -32,6 +32,10 @@ def gen_data(rng, nmax=1000):
     elif kind == "near-degenerate":
         dirn = rng.standard_normal(d)
         X = np.outer(rng.standard_normal(n), dirn) + 1e-5 * rng.standard_normal((n, d)) + centers[lab] * (d > 1)
+    elif kind == "satellite":
+        # one or two blobs plus a far satellite of fewer points than dimensions (1 .. d-1 rows; d = 1: one row)
+        ns_ = int(rng.integers(1, max(2, d)))
+        X[:ns_] = 40.0 * (1 + np.arange(d) % 2) + 0.05 * rng.standard_normal((ns_, d))
     elif kind == "unit-cube":
         X = 1 / (1 + np.exp(-X / 4))
     elif kind == "offset":
@@ -165,6 +169,9 @@ def check_hier(rng, X, w, desc):
     minp = None if cap is None else 4 * d
     if rng.random() < 0.3:
         minp = int(rng.integers(2, 3 * d + 2))
+    if desc.get("kind") == "satellite":
+        minp = int(rng.integers(1, max(2, d)))          # an explicit minimum below the dimension: tiny clusters are legal then
+        max_it = 1000 if cap is None else max_it
     norm = bool(rng.random() < 0.5)
     thr = float(rng.choice([0.1, 0.5, 1.0, 3.0]))
     ct = "full" if rng.random() < 0.8 else "diag"
@@ -259,6 +266,14 @@ def check_hier(rng, X, w, desc):
         p = np.asarray(p)
         if p.shape != (len(q),) or p.dtype.kind not in "iu" or p.min() < 0 or p.max() >= K:
             bad.append(("hier-predict-range", f"predict labels outside [0,{K}) for query class {qi}"))
+        elif len(q) > 4096:
+            # predict is a row-wise function: the label of a row does not depend on how many rows are predicted with it
+            with np.errstate(all="ignore"):
+                tail = np.asarray(h.predict(q[-777:]))
+                head = np.asarray(h.predict(q[:500]))
+            if not np.array_equal(tail, p[-777:]) or not np.array_equal(head, p[:500]):
+                bad.append(("hier-predict-batch-dependent", f"predict on a batch of {len(q)} rows labels its {'last 777' if not np.array_equal(tail, p[-777:]) else 'first 500'} rows differently "
+                            f"from predict on those rows alone ({int(np.sum(tail != p[-777:]))} differ)"))
         if qi < 4 or qi == 5:
             try:
                 with np.errstate(all="ignore"):
